@@ -120,7 +120,8 @@ class AsyncioTransportStreamSocketAdapter(AsyncStreamTransport):
         await self.__protocol.writer_drain()
 
     async def send_all_from_iterable(self, iterable_of_data: Iterable[bytes | bytearray | memoryview]) -> None:
-        self.__transport.writelines(iterable_of_data)
+        # A sized collection is needed: asyncio transports only detect an empty input through its truth value.
+        self.__transport.writelines(list(iterable_of_data))
         await self.__protocol.writer_drain()
 
     async def send_eof(self) -> None:
